@@ -60,7 +60,9 @@ ZONES = {
     "+00:00named": _dt.timezone(_dt.timedelta(0), "Z0"),
     "-11:59:59": _dt.timezone(_dt.timedelta(hours=-11, minutes=-59, seconds=-59)),
 }
-CONV_CLASSES = ["Scheduler", "VirtualTimeScheduler", "HistoricalScheduler", "TestScheduler"]
+# (the conversions are classmethods every scheduler class inherits; a class that overrides one must keep the contract)
+CONV_CLASSES = ["Scheduler", "VirtualTimeScheduler", "HistoricalScheduler", "TestScheduler", "TrampolineScheduler", "CurrentThreadScheduler",
+                "ImmediateScheduler", "TimeoutScheduler", "EventLoopScheduler", "NewThreadScheduler", "ThreadPoolScheduler", "CatchScheduler"]
 
 
 def _conv_class(name: str) -> Any:
@@ -409,7 +411,7 @@ def run_case(seed: int, idx: int, res: UnitResult) -> None:
 
 def far_datetime_case(seed: int, idx: int, res: UnitResult) -> None:
     r = case_rng(seed, ID, "far", idx)
-    cls = _conv_class(r.choice(["Scheduler", "VirtualTimeScheduler", "HistoricalScheduler", "TestScheduler"]))
+    cls = _conv_class(r.choice(CONV_CLASSES))
     lo = _dt.datetime(1, 1, 2, tzinfo=UTC)
     hi = _dt.datetime(9999, 12, 30, tzinfo=UTC)
     span_us = us_of_td(hi - lo)
